@@ -31,17 +31,26 @@ def hist_job(prop, classes, mix, tier, scale, quick, thorough, label, shards=Non
 # ------------------------------------------------------------------ C01
 def jobs_C01(tier, scale):
     mix = dict(add=45, recip=12, rm=20, rmloops=5, rmvtx=6, clear=4, resize=8)
-    return [hist_job("C01", _classes(["DS", "DL"], ["int", "double", "string", "struct"]), mix, tier, scale, 16000, 400000, "directed histories vs set model")]
+    q = tier == "quick"
+    return [hist_job("C01", _classes(["DS", "DL"], ["int", "double", "string", "struct"]), mix, tier, scale, 16000, 400000, "directed histories vs set model"),
+            enum_job("hist", "histmask", dict(prop="C01", classes=_classes(["DS", "DL"], ["int"]), dmin=0, dmax=2 if q else 3, orders=2 if q else 3), tier,
+                     "every directed edge set on <=%d vertices, built in several insertion orders, then every single mutator once" % (2 if q else 3))]
 
 
 def jobs_C02(tier, scale):
     mix = dict(add=50, rm=22, rmloops=6, rmvtx=9, clear=4, resize=8)
-    return [hist_job("C02", _classes(["US", "UL"], ["int", "double", "string", "struct"]), mix, tier, scale, 16000, 400000, "undirected histories vs set model")]
+    q = tier == "quick"
+    return [hist_job("C02", _classes(["US", "UL"], ["int", "double", "string", "struct"]), mix, tier, scale, 16000, 400000, "undirected histories vs set model"),
+            enum_job("hist", "histmask", dict(prop="C02", classes=_classes(["US", "UL"], ["int"]), umin=0, umax=3 if q else 4, orders=2 if q else 3), tier,
+                     "every undirected edge set on <=%d vertices, several insertion orders/orientations, then every single mutator once" % (3 if q else 4))]
 
 
 def jobs_C03(tier, scale):
     mix = dict(add=38, setl=22, rm=12, rmloops=6, rmvtx=8, clear=5, resize=4, recip=5)
-    return [hist_job("C03", _classes(["DL", "UL"], L6), mix, tier, scale, 16000, 400000, "label lifetime histories")]
+    q = tier == "quick"
+    return [hist_job("C03", _classes(["DL", "UL"], L6), mix, tier, scale, 16000, 400000, "label lifetime histories"),
+            enum_job("hist", "histmask", dict(prop="C03", classes="DL:string;UL:struct", dmin=1, dmax=2, umin=1, umax=3 if q else 4, orders=2), tier,
+                     "every labelled edge set of the small scopes, then every single mutator once (labels of all pairs read after it)")]
 
 
 def jobs_C04(tier, scale):
@@ -162,14 +171,18 @@ def jobs_C19(tier, scale):
     return [fam("bfs", _classes(["DS", "US", "DL", "UL"], ["int"]), 600, 12000, "layered / grid / complete DAG / ladder / diamond-chain families, every source: BFS scans <= V and <= V+E"),
             fam("dij", _classes(["DW", "UW"]), 600, 12000, "the same families with all-zero, all-one and varying weights: Dijkstra scans <= V+E+1"),
             graph_job("C19", "bfs", _classes(["DS", "US"]), tier, scale, 1500, 40000, "random graphs n<=40", nmax=40, max_size=100),
-            graph_job("C19", "dij", _classes(["DW", "UW"]), tier, scale, 1500, 40000, "random weighted graphs n<=30, weights 0..4 (ties and zero-weight cycles)", nmax=30, xmax=5, extra="wmode int", max_size=100)]
+            graph_job("C19", "dij", _classes(["DW", "UW"]), tier, scale, 1500, 40000, "random weighted graphs n<=30, weights 0..4 (ties and zero-weight cycles)", nmax=30, xmax=5, extra="wmode int", max_size=100)] + (
+        [] if tier == "quick" else [fuzz_job("dij", "wgraph", "C19", tier, scale, 0, 6000000, "guided search: libFuzzer climbs scans/(V+E+1) through __libfuzzer_extra_counters", max_len=300)])
 
 
 def jobs_C13(tier, scale):
     cl = _classes(["DS", "US", "DL", "UL"], ["int", "double", "string", "struct"])
     tf = dict(engine="pbt", executor="text", config="san", gen="textfile", cfg=dict(classes="DS:none;US:none;DL:string;UL:string;DL:int;UL:int", modes="indexfile;namefile"),
               cases=_n(tier, 6000, 150000, scale), shards=8 if tier == "quick" else 16, max_size=80, label="files generated from the documented grammar vs an independent reference parser")
-    return [graph_job("C13", "text", cl, tier, scale, 6000, 150000, "write/load round trips (labels none/int/double/string/struct, indices up to 14)", nmax=14, extra="mode roundtrip", max_size=60), tf]
+    jobs = [graph_job("C13", "text", cl, tier, scale, 6000, 150000, "write/load round trips (labels none/int/double/string/struct, indices up to 14)", nmax=14, extra="mode roundtrip", max_size=60), tf]
+    # byte-level differential: whenever the reference parser classifies the input as well-formed, loader and reference must agree
+    jobs.append(fuzz_job("text", "rawtext", "C13", tier, scale, 160000, 8000000, "libFuzzer byte-level differential against the reference parser (seed corpus + dictionary / empty corpus)", shards=4 if tier == "quick" else 16))
+    return jobs
 
 
 BIN_LABELS = ["i8", "u8", "i16", "u16", "i32", "u32", "i64", "u64", "f32", "f64"]
@@ -178,7 +191,8 @@ BIN_CLASSES = "DS:none;US:none;" + ";".join("DL:%s;UL:%s" % (l, l) for l in BIN_
 
 def jobs_C14(tier, scale):
     return [graph_job("C14", "bin", BIN_CLASSES, tier, scale, 8000, 200000, "round trip + byte layout + hand-made files (11 label types x directed/undirected)", nmax=12, extra="mode roundtrip", max_size=60),
-            graph_job("C14", "bin", BIN_CLASSES, tier, scale, 220, 2200, "unopenable path: every loader and writer throws std::runtime_error", nmax=3, extra="mode badpath", max_size=10)]
+            graph_job("C14", "bin", BIN_CLASSES, tier, scale, 220, 2200, "unopenable path: every loader and writer throws std::runtime_error", nmax=3, extra="mode badpath", max_size=10),
+            graph_job("C14", "bin", BIN_CLASSES, tier, scale, 1500, 40000, "vertex indices with 0xFF / 0x00 bytes in every position (255, 256, 65535, 65536, ... 70000)", nmin=22, nmax=22, extra="mode bigindex", max_size=30)]
 
 
 def jobs_C15_cuts(tier, scale):
@@ -415,7 +429,8 @@ PROPS = {
                 rule="generated graphs x label types {none, (u)int8/16/32/64, float, double} x directed/undirected. Oracle: (1) write/load round trip: size = 1+largest used index, equal to the original "
                 "after resize, all pairs and labels equal to the model; (2) the file's bytes equal, record for record in edges() order, LE32(src) LE32(dst) LE(label) computed with shifts, hence "
                 "length = edges x (8+sizeof label); (3) a hand-made file with the model's records in a generated order/orientation loads to the model's graph, twice identically; (4) an unopenable "
-                "path makes every loader and writer throw std::runtime_error; (5) swapBytes reverses the object representation and is an involution. "
+                "path makes every loader and writer throw std::runtime_error; (5) swapBytes reverses the object representation and is an involution; (6) sparse graphs whose vertex indices have 0xFF / 0x00 "
+                "bytes in every position (255, 256, 511, 65535, 65536, ... 70000) round-trip with the same layout. "
                 "Non-trivial: multi-byte label, >=2 edges and a self-loop.",
                 assumptions=["'any host' cannot be executed on one little-endian machine: what is checked is that the bytes are the little-endian ones"]),
     "C15": dict(jobs=lambda tier, scale: jobs_C15(tier, scale), min_nontrivial=dict(quick=200, thorough=2000), level="fault_enumeration",
